@@ -335,20 +335,21 @@ func (p *Proxy) handle(conn net.Conn) {
 }
 
 func (p *Proxy) maybeCreateSession(version primitive.ProtocolVersion, keyspace, compression string) (*proxycore.Session, error) {
-	p.sessionsMu.RLock()
-	defer p.sessionsMu.RUnlock()
+	// Creating a session stores it in p.sessions: that needs the write lock.
+	p.sessionsMu.Lock()
+	defer p.sessionsMu.Unlock()
 	return p.maybeCreateSessionUnlocked(version, keyspace, compression)
 }
 
 func (p *Proxy) findSession(version primitive.ProtocolVersion, keyspace, compression string) (*proxycore.Session, error) {
-	p.sessionsMu.RLock()
-	defer p.sessionsMu.RUnlock()
 	key := sessionKey{version: version, keyspace: keyspace, compression: compression}
-	if s, ok := p.sessions[key]; ok {
+	p.sessionsMu.RLock()
+	s, ok := p.sessions[key]
+	p.sessionsMu.RUnlock()
+	if ok {
 		return s, nil
-	} else {
-		return p.maybeCreateSessionUnlocked(version, keyspace, compression)
 	}
+	return p.maybeCreateSession(version, keyspace, compression)
 }
 
 func (p *Proxy) maybeCreateSessionUnlocked(version primitive.ProtocolVersion, keyspace, compression string) (*proxycore.Session, error) {
